@@ -5,7 +5,7 @@ import concurrent.futures, json, os, shutil
 import vf
 
 # which design variant of spec/Reuse.tla describes the code in /repo ("none" = as found; "tiebreak" = repaired)
-CODE_FIX = "none"
+CODE_FIX = os.environ.get("VERIF_C41_FIX", "none")
 
 CODE_OF = {"neg": 508, "late": 406, "reap": 401, "idle": 0x1d1e}
 NEG_CODES = (508, 406)
